@@ -28,7 +28,7 @@ META = {
 
 def shards(tier):
     if tier == "quick":
-        return [{"label": "cubes%d" % i, "n": 900} for i in range(12)] + [{"label": "big", "n": 16, "big": True},
+        return [{"label": "cubes%d" % i, "n": 1700} for i in range(13)] + [{"label": "big", "n": 16, "big": True},
                                                                           {"label": "huge", "n": 2, "huge": True, "mem_gib": 12},
                                                                           {"label": "sparse", "n": 40, "sparse": True}]
     return [{"label": "cubes%d" % i, "n": 70000} for i in range(15)] + [{"label": "big", "n": 600, "big": True},
